@@ -147,6 +147,9 @@ class _VersionIndependentUnmarshaller:
 
         self.bytes_for_s = bytes_for_s
         version = magic_int2tuple(self.magic_int)
+        # Python 3 has a single integer type; only Python 2 bytecode
+        # needs to keep "long" apart from "int".
+        self.has_long_type = version < (3, 0)
         if version >= (3, 4):
             if self.magic_int in (3250, 3260, 3270):
                 self.marshal_version = 3
@@ -264,7 +267,7 @@ class _VersionIndependentUnmarshaller:
     def t_long(self, save_ref, bytes_for_s=False):
         n = unpack("<i", self.fp.read(4))[0]
         if n == 0:
-            return long(0)
+            return long(0) if self.has_long_type else 0
         size = abs(n)
         d = long(0)
         for j in range(0, size):
@@ -275,6 +278,9 @@ class _VersionIndependentUnmarshaller:
             d = long(d)
         if n < 0:
             d = long(d * -1)
+        if not self.has_long_type:
+            # Don't show Python 3 integers with an "L" suffix.
+            d = int(d)
 
         return self.r_ref(d, save_ref)
 
